@@ -14,7 +14,7 @@ import Deepali.Model.Losses
 namespace Deepali.Drv
 open Deepali Deepali.Proto Deepali.Loss
 
-private def lReduction : Reader Reduction := do
+def lReduction : Reader Reduction := do
   let t ← tok
   match t with
   | "none" => pure .none
@@ -26,12 +26,12 @@ private def lNats : Reader (List Nat) := do
   let k ← nat
   listOf k nat
 
-private def lTensor : Reader (T Rat) := do
+def lTensor : Reader (T Rat) := do
   let shape ← lNats
   let a := (← listOf (prod shape) rat).toArray
   pure ⟨shape, fun i => a.getD i 0⟩
 
-private def lOpt {β} (r : Reader β) : Reader (Option β) := do
+def lOpt {β} (r : Reader β) : Reader (Option β) := do
   let t ← tok
   match t with
   | "-" => pure none
@@ -77,7 +77,7 @@ private def lookupNear (tbl : Array (Rat × Rat)) (tol : Rat) (a : Rat) : Option
   | some (d, v) => if d ≤ tol * (1 + ratAbs a) then some v else none
   | none => none
 
-private def lPointwiseKind : Reader (Pointwise Rat) := do
+def lPointwiseKind : Reader (Pointwise Rat) := do
   let t ← tok
   match t with
   | "ssd" => pure .ssd
